@@ -898,6 +898,9 @@ func unop(fr *frame, instr *ssa.UnOp, x value) value {
 		if x.(*value) == nil {
 			panic(targetRuntimeError{"invalid memory address or nil pointer dereference"})
 		}
+		if fr.i.path.tm != nil {
+			fr.i.path.logAccess(x.(*value), false, fr)
+		}
 		return load(mustDeref(instr.X.Type()), x.(*value))
 	case token.NOT:
 		return !x.(bool)
